@@ -50,13 +50,13 @@ Lemma nearer_cons x p d' d : nearer p d' d -> nearer (x :: p) d' d.
 Proof. intros (pre & post & E & H). exists ((x :: p) :: pre), post. cbn [ups app]. rewrite E. split; [reflexivity|right; exact H]. Qed.
 
 Theorem find_spec start :
-  match find fs stop start with
+  match find_spokfile fs stop start with
   | Found d => In d (ups start) /\ has d /\ eligible d /\ (forall d', nearer start d' d -> ~ has d')
   | NotFound => forall d, In d (ups start) -> eligible d -> ~ has d
   | ReadError d => In d (ups start) /\ eligible d /\ fs d = None
   end.
 Proof.
-  induction start as [|x parent IH]; cbn [find].
+  induction start as [|x parent IH]; cbn [find_spokfile].
   - unfold look. destruct (is_above [] stop) eqn:A.
     + intros d [<-|[]] E. unfold eligible in E. congruence.
     + destruct (fs []) as [es|] eqn:F; [|split; [left; reflexivity|split; [exact A|exact F]]].
@@ -81,7 +81,7 @@ Proof.
         destruct (rpath_eqb (x :: parent) stop) eqn:S.
         -- apply rpath_eqb_spec in S. intros d [<-|Hd] E; [exact Nh|].
            unfold eligible in E. rewrite <- S in E. rewrite (parent_ancestors_above d x parent Hd) in E. discriminate.
-        -- destruct (find fs stop parent) as [d0| |d0].
+        -- destruct (find_spokfile fs stop parent) as [d0| |d0].
            ++ destruct IH as (I1 & I2 & I3 & I4). split; [right; exact I1|]. split; [exact I2|]. split; [exact I3|].
               intros d' (pre & post & E & Hin). cbn [ups] in E. destruct pre as [|a pre].
               ** contradiction.
@@ -93,7 +93,7 @@ Qed.
 
 (* no ReadError when every eligible directory at or above start can be listed *)
 Corollary find_no_error start : (forall d, In d (ups start) -> eligible d -> fs d <> None) ->
-  forall d, find fs stop start <> ReadError d.
+  forall d, find_spokfile fs stop start <> ReadError d.
 Proof.
   intros R d E. pose proof (find_spec start) as S. rewrite E in S. destruct S as (A & B & C). exact (R d A B C).
 Qed.
